@@ -20,7 +20,7 @@ use crate::board::Board;
 use crate::eng::{self, guard, EKey};
 use crate::json::J;
 use crate::par::par_map_init;
-use crate::refchess::{Mv, Pos, Side, START_FEN};
+use crate::refchess::{Kind, Mv, Pos, Side, START_FEN};
 use crate::report::Report;
 use crate::uci::Flounder;
 use std::sync::atomic::{AtomicU64, Ordering};
@@ -162,6 +162,99 @@ pub fn check(e: &mut Engine, rep: &Report, cmds: &[&str], want: &Pos) -> bool {
             }
         }
     }
+}
+
+/// Can a man of this kind and side go from `f` to `t` on an otherwise empty board (capture =
+/// something stands on t)?
+fn reaches(side: Side, kind: Kind, f: u8, t: u8, capture: bool) -> bool {
+    let df = (t % 8) as i32 - (f % 8) as i32;
+    let dr = (t / 8) as i32 - (f / 8) as i32;
+    if df == 0 && dr == 0 {
+        return false;
+    }
+    match kind {
+        Kind::N => (df.abs(), dr.abs()) == (1, 2) || (df.abs(), dr.abs()) == (2, 1),
+        Kind::K => df.abs() <= 1 && dr.abs() <= 1,
+        Kind::R => df == 0 || dr == 0,
+        Kind::B => df.abs() == dr.abs(),
+        Kind::Q => df == 0 || dr == 0 || df.abs() == dr.abs(),
+        Kind::P => {
+            let fwd = if side == Side::W { 1 } else { -1 };
+            let home = if side == Side::W { 1 } else { 6 };
+            let r = (f / 8) as i32;
+            if r == 0 || r == 7 {
+                return false;
+            }
+            if capture {
+                df.abs() == 1 && dr == fwd
+            } else {
+                df == 0 && (dr == fwd || (dr == 2 * fwd && r == home))
+            }
+        }
+    }
+}
+
+/// Part (e): one position per (side, kind, from, to, content of to [, promotion]).
+fn string_class(contents: &[Option<Kind>]) -> Vec<(Pos, Mv)> {
+    let king_squares: [u8; 12] = [4, 60, 0, 7, 56, 63, 27, 36, 18, 45, 31, 32];
+    let mut out = Vec::new();
+    for side in [Side::W, Side::B] {
+        for kind in [Kind::K, Kind::Q, Kind::R, Kind::B, Kind::N, Kind::P] {
+            for f in 0..64u8 {
+                for t in 0..64u8 {
+                    for &c in contents {
+                        if !reaches(side, kind, f, t, c.is_some()) {
+                            continue;
+                        }
+                        if c == Some(Kind::P) && (t / 8 == 0 || t / 8 == 7) {
+                            continue;
+                        }
+                        let last = if side == Side::W { 7 } else { 0 };
+                        let promos: Vec<Option<Kind>> = if kind == Kind::P && t / 8 == last { vec![Some(Kind::Q), Some(Kind::R), Some(Kind::B), Some(Kind::N)] } else { vec![None] };
+                        // first pair of king squares that makes the position valid and the move legal
+                        let mut found: Option<Pos> = None;
+                        'kings: for &ok in &king_squares {
+                            for &ek in &king_squares {
+                                let mut p = Pos::empty();
+                                p.stm = side;
+                                p.sq[f as usize] = Some((side, kind));
+                                if let Some(k) = c {
+                                    p.sq[t as usize] = Some((side.other(), k));
+                                }
+                                if kind != Kind::K {
+                                    if p.sq[ok as usize].is_some() {
+                                        continue;
+                                    }
+                                    p.sq[ok as usize] = Some((side, Kind::K));
+                                }
+                                if p.sq[ek as usize].is_some() {
+                                    continue;
+                                }
+                                p.sq[ek as usize] = Some((side.other(), Kind::K));
+                                if !p.is_valid() {
+                                    continue;
+                                }
+                                let m = Mv { from: f, to: t, promo: promos[0] };
+                                if p.legal_moves().contains(&m) {
+                                    found = Some(p);
+                                    break 'kings;
+                                }
+                                if kind == Kind::K {
+                                    continue;
+                                }
+                            }
+                        }
+                        if let Some(p) = found {
+                            for pr in promos {
+                                out.push((p.clone(), Mv { from: f, to: t, promo: pr }));
+                            }
+                        }
+                    }
+                }
+            }
+        }
+    }
+    out
 }
 
 struct Lcg(u64);
@@ -374,6 +467,36 @@ pub fn run(tier: &str, seed: u64, out: &str) {
                 .set("games", games.len())
                 .set("game_lengths", games.iter().map(|g| g.1.len()).collect::<Vec<_>>())
                 .set("commands", jobs.len()),
+        );
+    }
+
+    // ---- (e) every move string by every kind of man
+    if !rep.saturated() {
+        let contents: Vec<Option<Kind>> = if thorough { vec![None, Some(Kind::R), Some(Kind::Q), Some(Kind::B), Some(Kind::N), Some(Kind::P)] } else { vec![None, Some(Kind::R)] };
+        let cases = string_class(&contents);
+        let by_kind = |k: Kind| cases.iter().filter(|c| c.0.sq[c.1.from as usize].map(|x| x.1) == Some(k)).count();
+        par_map_init(&cases, Engine::new, |e, (p, m)| {
+            let fen = p.fen(0, 1);
+            let c = command(&fen, &[*m]);
+            check(e, &rep, &[&c], &p.make(*m));
+            commands.fetch_add(1, Ordering::Relaxed);
+        });
+        eprintln!("[C04] move strings: {} (position, move) cases ({:.1}s)", cases.len(), rep.elapsed());
+        transitions_total += cases.len() as u64;
+        if let Some((p, m)) = cases.iter().find(|c| c.1.uci() == "e1a1" && c.0.sq[4].map(|x| x.1) == Some(Kind::Q)) {
+            samples.push(J::Str(command(&p.fen(0, 1), &[*m])));
+        }
+        cov_parts.push(
+            J::obj()
+                .set("part", "e: every move string by every kind of man: for each colour, each kind, each from-square and each to-square that kind can reach (pawns: pushes, double pushes, captures, all four promotions), onto an empty square and capturing each listed enemy kind, in a position with only the two kings added; sent as position fen ... moves <m>")
+                .set("captured_kinds", contents.iter().map(|c| match c { None => "none".to_string(), Some(k) => format!("{:?}", k) }).collect::<Vec<_>>())
+                .set("cases", cases.len())
+                .set("by_king", by_kind(Kind::K))
+                .set("by_queen", by_kind(Kind::Q))
+                .set("by_rook", by_kind(Kind::R))
+                .set("by_bishop", by_kind(Kind::B))
+                .set("by_knight", by_kind(Kind::N))
+                .set("by_pawn", by_kind(Kind::P)),
         );
     }
 
